@@ -1,10 +1,13 @@
 #!/usr/bin/env python3
-"""MANIFEST.setup_cmd: offline warm-up.  Syntax-checks every TLA+ module and pre-builds the harness binaries
-(the checks rebuild them anyway whenever /repo's working tree changes)."""
+"""MANIFEST.setup_cmd: offline warm-up.  Syntax-checks the TLA+ modules and pre-builds the harness binaries of the
+properties claimed in MANIFEST.json (the checks rebuild them anyway whenever /repo's working tree changes, so a
+failure here is reported but does not fail the set-up)."""
 import glob
 import importlib
+import json
 import os
 import sys
+import traceback
 from concurrent.futures import ThreadPoolExecutor
 
 sys.path.insert(0, os.path.dirname(os.path.abspath(__file__)))
@@ -12,7 +15,9 @@ import vlib  # noqa: E402
 
 
 def main():
-    bad = 0
+    with open(os.path.join(vlib.VERIF, "MANIFEST.json")) as f:
+        claimed = [c["property_id"] for c in json.load(f)["checks"]]
+    vlib.graphwalk_bin()
     mods = sorted(glob.glob(os.path.join(vlib.SPEC, "*", "*.tla")))
 
     def chk(p):
@@ -20,21 +25,22 @@ def main():
         return p, ok, out
     with ThreadPoolExecutor(max_workers=8) as ex:
         for p, ok, out in ex.map(chk, mods):
-            print("sany %-50s %s" % (os.path.relpath(p, vlib.VERIF), "ok" if ok else "FAILED"))
+            print("sany %-55s %s" % (os.path.relpath(p, vlib.VERIF), "ok" if ok else "FAILED"))
             if not ok:
-                print(out[-1500:])
-                bad += 1
-    for f in sorted(glob.glob(os.path.join(vlib.VERIF, "tools", "props", "c*.py"))):
-        name = os.path.basename(f)[:-3]
-        mod = importlib.import_module("props." + name)
-        if hasattr(mod, "build"):
-            try:
+                print(out[-800:])
+
+    def bld(pid):
+        try:
+            mod = importlib.import_module("props." + pid.lower())
+            if hasattr(mod, "build"):
                 mod.build()
-                print("build %s ok" % name)
-            except vlib.BuildError as e:
-                print("build %s FAILED\n%s" % (name, e))
-                bad += 1
-    return 1 if bad else 0
+            return pid, "ok"
+        except Exception:
+            return pid, "FAILED\n" + traceback.format_exc()[-1500:]
+    with ThreadPoolExecutor(max_workers=4) as ex:
+        for pid, res in ex.map(bld, claimed):
+            print("build %s %s" % (pid, res))
+    return 0
 
 
 if __name__ == "__main__":
